@@ -64,19 +64,30 @@ Proof.
   split; [vm_compute; reflexivity|]. split; vm_compute; reflexivity.
 Qed.
 
-(* D15: Pending in state Closed, then a retransmitted FIN.
+(* D15 (repaired in /repo): Pending in state Closed, then a retransmitted FIN — the closed connection
+   ignores the queued message instead of reporting Error::BugRecvInClosed.  Regression example on the
+   witness of the old defect.
    case: ... P H P M2,0,101,1048576,10,0,0,- P M1,1,101,1048576,11,0,0,- PP M1,1,101,1048576,12,0,0,- P *)
 Definition d13_ops : list vop :=
   [VoPoll []; VoShutdown; VoPoll []; VoDeliver (wmsg ST_STATE 0 101 0); VoPoll [];
    VoDeliver (wmsg ST_FIN 1 101 0); VoPoll [TPending]; VoDeliver (wmsg ST_FIN 1 101 0); VoPoll []].
 
-Lemma closed_pending_bug_refuted :
+Definition last_pre_closed (tr : list fstep) : bool :=
+  match rev tr with
+  | st :: _ => match f_state (fs_pre st) with Closed => true | _ => false end
+  | [] => false
+  end.
+
+Lemma closed_pending_regression :
   exists w cfg ops,
     vconfig_ok cfg = true /\ Forall op_msg_ok ops /\
-    c10_step_ok cfg (wtrace w cfg ops) = false /\
-    c10_closed_pending_class cfg (wtrace w cfg ops) = true.
+    (* the last poll still finds the connection Closed with a message queued ... *)
+    last_pre_closed (wtrace w cfg ops) = true /\
+    (* ... and no step of the trace panics or reports a Bug error *)
+    c10_step_ok cfg (wtrace w cfg ops) = true /\
+    c10_closed_pending_class cfg (wtrace w cfg ops) = false.
 Proof.
   exists 1056, (wcfg 1048576), d13_ops.
   split; [vm_compute; reflexivity|]. split; [repeat constructor|].
-  split; vm_compute; reflexivity.
+  split; [vm_compute; reflexivity|]. split; vm_compute; reflexivity.
 Qed.
